@@ -29,37 +29,22 @@ def rule_zero_fill(ctx, P):
     # ---------------- R15c
     r = ctx.rule('R15c', 'fragment buffers are zero-filled over their whole allocation size',
                  'padding bytes feed parity and checksums: uninitialised padding makes output depend on heap history')
-    g = P.fn('get_aligned_buffer16')
-    Cg = Canon(P, g)
-    pm = [i for i in g.insts() if i.op == 'call' and i.callee == '@posix_memalign']
-    ms = [i for i in g.insts() if i.op == 'call' and i.callee.startswith('@llvm.memset')]
-    if not pm:
-        raise AnalysisBroken('anchor vanished: get_aligned_buffer16 does not allocate')
-    if not ms:
-        r.fail('get_aligned_buffer16 zero fill', func=g.name, sig='no memset', loc=pm[0].loc, msg='the aligned allocator does not clear the buffer')
-    else:
-        m0 = ms[0]
-        same = Cg.val(strip_int_casts(g, m0.ops[2])) == Cg.val(strip_int_casts(g, pm[0].ops[2]))
-        zero = m0.ops[1] == '0'
-        # every path from a successful allocation to return passes the memset
-        esc = None
-        for b in g.order:
-            t = b.insts[-1]
-            if t.op == 'br' and len(t.targets) == 2 and t.ops:
-                c = g.defs.get(t.ops[0])
-                if c is not None and c.op == 'icmp' and pm[0].res in c.ops and '0' in c.ops:
-                    okdst = g.blocks[t.targets[1] if c.pred == 'ne' else t.targets[0]]
-                    esc = reaches_without(g, okdst, lambda i: i.op == 'ret', lambda i: i is m0)
-        if same and zero and esc is None:
-            r.ok('get_aligned_buffer16: memset(buf, 0, size) with the allocation size on every successful path', func=g.name, loc=m0.loc)
+    from . import shared as _sh
+    for an in ('get_aligned_buffer16', 'alloc_fragment_buffer'):
+        g = P.fn(an)
+        az = _sh.aligned_zero_alloc(P, g)
+        other = [i for i in g.insts() if i.op == 'call' and i.callee in ('@malloc', '@calloc', '@realloc')]
+        if az is None:
+            if an == 'get_aligned_buffer16':
+                raise AnalysisBroken('anchor vanished: get_aligned_buffer16 does not allocate')
+            r.fail('alloc_fragment_buffer allocator', func=g.name, sig='other allocator', loc=g.mod.src, msg='fragment buffers do not (only) come from the zero-filling allocator')
+        elif other:
+            r.fail(f'{an} allocator', func=g.name, sig='other allocator', loc=other[0].loc, msg='fragment buffers do not (only) come from the zero-filling allocator')
+        elif az['zeroed']:
+            r.ok(f'{an}: memset(buf, 0, size) with the allocation size on every successful path ({az["how"]})', func=g.name, loc=az['site'].loc)
         else:
-            r.fail('get_aligned_buffer16 zero fill', func=g.name, sig=f'memset value {m0.ops[1]} size {Cg.val(m0.ops[2])[:30]} skipped={esc is not None}', loc=m0.loc,
+            r.fail(f'{an} zero fill', func=g.name, sig='buffer not cleared over its allocation size', loc=az['site'].loc,
                    msg='the buffer is not cleared over its full size on every path')
-    a = P.fn('alloc_fragment_buffer')
-    if any(i.op == 'call' and i.callee == '@get_aligned_buffer16' for i in a.insts()) and not any(i.op == 'call' and i.callee in ('@malloc', '@posix_memalign') for i in a.insts()):
-        r.ok('alloc_fragment_buffer allocates only through get_aligned_buffer16', func=a.name, loc=a.mod.src)
-    else:
-        r.fail('alloc_fragment_buffer allocator', func=a.name, sig='other allocator', loc=a.mod.src, msg='fragment buffers do not (only) come from the zero-filling allocator')
     # every producer of fragment buffers on the encode/decode paths uses alloc_fragment_buffer
     for fname in ('prepare_fragments_for_encode', 'prepare_fragments_for_decode'):
         h = P.fn(fname)
@@ -132,6 +117,9 @@ def run(ctx):
         g = cands[0]
         Cg = Canon(P, g)
         data, parity, kp = g.params[1][1], g.params[2][1], 'arg3'
+        from ..poly import PolyCtx
+        pcg = PolyCtx(P, g, Cg)
+        Kp = pcg.val(g.params[3][1])
         n = 0
         for c in g.insts():
             if c.op != 'call':
@@ -148,33 +136,35 @@ def run(ctx):
                     continue
                 n += 1
                 role = 'data' if strip_ptr_casts(g, gp.ops[0]) == data else 'parity'
-                idx = Cg.val(strip_int_casts(g, gp.ops[-1]))
+                # element index and flag index as polynomial forms: independent of how the arrays / the flag array are walked or re-based
+                eroot, eoff = pcg.ptr(d.ops[0])
+                idxp = PolyCtx.div(eoff, 8)
+                idx = str(idxp)
                 F = Facts(P, g, c.bb)
-                flags = []
-                for p, x, y in F.facts:
-                    mm = re.match(r'^\*\(@malloc\(.*\) ptradd (.*)\)$', x)
-                    if mm and p == 'ne' and y == '0':
-                        flags.append(re.sub(r'^(sext|zext)\.i\d+\((.*)\)$', r'\2', mm.group(1)))
+                flagidx = []
+                for raw, truth in F.raw:
+                    if raw.op == 'icmp' and '0' in raw.ops and ((raw.pred == 'ne') == truth) and raw.pred in ('eq', 'ne'):
+                        ld = g.defs.get(strip_int_casts(g, raw.ops[0] if raw.ops[1] == '0' else raw.ops[1]))
+                        if ld is not None and ld.op == 'load':
+                            froot, foff = pcg.ptr(ld.ops[0])
+                            if froot.startswith('@malloc('):
+                                flagidx.append(PolyCtx.div(foff, 4))
                 inst = f'{fname}: write to {role}[{idx}] at line {c.line}'
                 if fname.endswith('_reconstruct'):
-                    dest = 'arg6'
-                    ok = (role == 'data' and idx == dest) or (role == 'parity' and idx == f'({dest} sub {kp})')
+                    destp = pcg.val(g.params[6][1])
+                    ok = (role == 'data' and idxp == destp) or (role == 'parity' and idxp == destp - Kp)
                     if ok:
                         r.ok(inst + ': the destination', func=g.name, loc=c.loc)
                     else:
                         r.fail(inst, func=g.name, sig=f'reconstruct writes {role}[{idx}]', loc=c.loc, msg=f'reconstruct writes {role}[{idx}], not the destination fragment')
                     continue
-                want = {idx} if role == 'data' else set()
-                okp = False
-                if role == 'parity':
-                    for z in flags:
-                        if idx in (f'({z} sub {kp})',) or z in (f'({kp} add {idx})', f'({idx} add {kp})'):
-                            okp = True
-                if (role == 'data' and idx in flags) or okp:
-                    r.ok(inst + f' under _missing[{flags[-1]}]', func=g.name, loc=c.loc)
+                want = idxp if role == 'data' else idxp + Kp
+                if any(z == want for z in flagidx):
+                    r.ok(inst + f' under _missing[{want}]', func=g.name, loc=c.loc)
                 else:
-                    r.fail(inst, func=g.name, sig=f'{role}[{idx}] written under _missing{flags}', loc=c.loc,
-                           msg=f'{role}[{idx}] is (re)computed when _missing{flags} is set: the flag tested is not the one of the fragment written, '
+                    shown = [str(z) for z in flagidx]
+                    r.fail(inst, func=g.name, sig=f'{role}[{idx}] written under _missing{shown}', loc=c.loc,
+                           msg=f'{role}[{idx}] is (re)computed when _missing{shown} is set: the flag tested is not the one of the fragment written, '
                                'so a supplied fragment can be overwritten')
         if n == 0:
             r.undecided(f'{fname}: region writes', msg='no write through data[]/parity[] elements found')
